@@ -101,3 +101,19 @@ theorem cols_of_product {m n p k : ℕ} (A : Matrix (Fin m) (Fin n) ℝ) (B : Ma
     (A * B).submatrix id e = A * B.submatrix id e := by
   ext i j
   simp [Matrix.mul_apply, Matrix.submatrix]
+/-- C16: existence of the root of every ascent. If every step either stays or strictly increases the weight, then on a finite set every point reaches a
+    fixed point of `next` after finitely many steps (the spec function ROOT of contracts/c16.py is well defined). -/
+theorem ascent_reaches_a_root {α : Type*} [Finite α] (w : α → ℝ) (f : α → α)
+    (h : ∀ p, f p = p ∨ w p < w (f p)) (p : α) : ∃ k : ℕ, f (f^[k] p) = f^[k] p := by
+  have wf : WellFounded (fun q p : α => w p < w q) := by
+    haveI : IsTrans α (fun q p : α => w p < w q) := ⟨fun a b c hab hbc => lt_trans hbc hab⟩
+    haveI : IsIrrefl α (fun q p : α => w p < w q) := ⟨fun a => lt_irrefl _⟩
+    exact Finite.wellFounded_of_trans_of_irrefl _
+  induction p using wf.induction with
+  | _ p ih =>
+    rcases h p with hfix | hlt
+    · exact ⟨0, by simpa using hfix⟩
+    · obtain ⟨k, hk⟩ := ih (f p) hlt
+      refine ⟨k + 1, ?_⟩
+      rw [Function.iterate_succ_apply]
+      exact hk
